@@ -92,10 +92,94 @@ def per_path(ctx, po, sh):
     ctx.cov['sub_checks']['impl_headers_decoded'] = ctx.cov['sub_checks'].get('impl_headers_decoded', 0) + n_impls
 
 
+# ----------------------------------------------------------------------------------------------- order independence through the real attribute-collection loop
+def order_shard(ctx, sh):
+    """whole derive (real Parse impls and get_data_type_attrs from MIR, syn primitives modelled): the impl set of a list of trait
+    instructions does not depend on their order, on how they are grouped into #[o2o(..)] lists, or on an `allow_unknown` marker"""
+    import itertools, synmodel, c13
+    from engine import SymStr
+    from build import TRAIT_NAMES
+    e = ctx.engine()
+    synmodel.install(e)
+    item = sh['item']
+    instrs = ['SYM(X, Er)', 'from_ref(Y)', 'owned_into_existing(Z)']
+    variants = []
+    for perm in itertools.permutations(range(3)):
+        lst = [instrs[i] for i in perm]
+        variants.append(' '.join('#[%s]' % x for x in lst))
+        variants.append('#[o2o(%s)]' % ', '.join(lst))
+        for pos in range(4):
+            l2 = lst[:pos] + ['allow_unknown'] + lst[pos:]
+            variants.append('#[o2o(%s)]' % ', '.join(l2))
+    variants = variants[sh['lo']:sh['hi']]
+    base = ' '.join('#[%s]' % x for x in instrs)
+
+    def run(eng):
+        atom = z3.Int('nm')
+        eng.assume(z3.And(atom >= 0, atom < len(TRAIT_NAMES)))
+        vi = z3.Int('vi')
+        eng.assume(z3.And(vi >= 0, vi < len(variants)))
+        k = eng.decide([(i, vi == i) for i in range(len(variants))])
+        sym = {'SYM': SymStr(atom, TRAIT_NAMES)}
+        ta, tb = item.replace('{ATTRS}', base), item.replace('{ATTRS}', variants[k])
+        eng.aux['t'] = (ta, tb)
+        return c13.outcome(eng, ta, sym), c13.outcome(eng, tb, sym)
+    res = e.explore(run)
+    ctx.absorb(e, res)
+
+    def headers(o):
+        if o[0] != 'ok':
+            return o
+        # multiset of impl items, each as its flat token tuple
+        from tokens import TS
+        items, cur = [], []
+        for t in o[1]:
+            if t == ('I', 'impl') and cur:
+                items.append(tuple(cur)); cur = []
+            cur.append(t)
+        if cur:
+            items.append(tuple(cur))
+        return ('ok', sorted(map(str, items)))
+    wit = []
+    for r in res:
+        if r.kind != 'ok':
+            ctx.inconclusive.append('engine panic in C04 order part: %s' % r.value); continue
+        a, b = r.value
+        mdl = ctx.model_of(r.pc)
+        nm = TRAIT_NAMES[mdl.eval(z3.Int('nm'), model_completion=True).as_long()]
+        ta, tb = r.aux['t']
+        wit.append((headers(a), headers(b), ta.replace('SYM', nm), tb.replace('SYM', nm)))
+    rs = ctx.replay.run_many([w[2] for w in wit] + [w[3] for w in wit])
+    n = len(wit)
+    for i, (a, b, ta, tb) in enumerate(wit):
+        na, nb = headers(c13.native_outcome(rs[i])), headers(c13.native_outcome(rs[n + i]))
+        for pred, nat, t in ((a, na, ta), (b, nb, tb)):
+            if pred[0] == nat[0] and (pred[0] != 'ok' or pred[1] == nat[1]):
+                ctx.cov['traces_validated_against_impl'] += 1
+            else:
+                ctx.inconclusive.append('ENCODING-MISMATCH (C04 order): %s :: %s / %s' % (t, str(pred)[:150], str(nat)[:150]))
+        eq = c13.same(a, b) if a[0] != 'ok' else a == b
+        ctx.cov['queries']['unsat' if eq else 'sat'] += 1
+        if not eq:
+            neq = (na != nb) if na[0] == 'ok' else not c13.same(na, nb)
+            if neq:
+                ctx.violation('instruction-order', 'impl-set-differs', 'same instructions, different order/grouping, different impls: %s vs %s' % (str(na)[:200], str(nb)[:200]), {'inputs': [ta, tb]})
+            else:
+                ctx.inconclusive.append('C04 order difference not reproduced natively: %s | %s' % (ta, tb))
+    if wit:
+        ctx.sample({'part': 'order', 'base': wit[0][2], 'variant': wit[-1][3]})
+    ctx.cov['sub_checks']['order_variants'] = ctx.cov['sub_checks'].get('order_variants', 0) + len(variants)
+
+
 def body(ctx):
     ctx.cov['outside_claim'] = ['more than 3 instructions', 'two instructions for the same counterpart (duplicates are C15)', 'generic error types are probed by kernels (TypePath::from) not by this sweep']
     ctx.assumptions = ['oracle: README list of 12 kinds + shortcut table parsed at check time (oracle/docs.py)', 'library models; predicted == real output per path']
     expander.sweep(ctx, ['c04'], per_path)
+    shards = []
+    for item in ('{ATTRS} struct S { a: i32 }', '{ATTRS} enum E { A }'):
+        for lo in range(0, 36, 6 if ctx.tier == 'thorough' else 12):
+            shards.append({'item': item, 'lo': lo, 'hi': lo + (6 if ctx.tier == 'thorough' else 4)})
+    ctx.run_shards(order_shard, shards)
 
 
 if __name__ == '__main__':
